@@ -4,6 +4,7 @@ import atexit, json, os, re, shutil, subprocess, sys, tempfile, time, hashlib
 
 VERIF = os.path.dirname(os.path.dirname(os.path.abspath(__file__)))
 REPO = os.environ.get("VERIF_REPO", "/repo")
+ALWAYS_INTREE = ("vdaf/prio3/zzverifrun",)      # helper packages living below internal-import boundaries
 JAR = "/opt/veriftools/tla/tla2tools.jar:/opt/veriftools/tla/CommunityModules-deps.jar"
 SEED = int(os.environ.get("VERIF_SEED", "1") or "1")
 NCPU = os.cpu_count() or 4
@@ -140,7 +141,7 @@ def write_overlay(workdir, drivers=(), intree=()):
         for f in sorted(os.listdir(src)):
             if f.endswith(".go") or f.endswith(".s"):
                 rep[os.path.join(REPO, "zzverif", name, f)] = os.path.join(src, f)
-    for pkg in intree:
+    for pkg in sorted(set(intree) | set(ALWAYS_INTREE)):
         src = os.path.join(hd, "intree", pkg)
         for f in sorted(os.listdir(src)):
             if f.endswith(".go"):
